@@ -22,8 +22,10 @@ package main
 
 import (
 	"context"
+	"encoding/hex"
 	"encoding/json"
 	"fmt"
+	"math/big"
 	"os"
 	"os/exec"
 	"path/filepath"
@@ -38,6 +40,8 @@ import (
 	"gitlab.com/aquachain/aquachain/aqua/accounts/keystore"
 	"gitlab.com/aquachain/aquachain/common"
 	"gitlab.com/aquachain/aquachain/common/log"
+	"gitlab.com/aquachain/aquachain/core/types"
+	"gitlab.com/aquachain/aquachain/crypto"
 	"gitlab.com/aquachain/aquachain/p2p/netutil"
 	"gitlab.com/aquachain/aquachain/rpc"
 	rpcclient "gitlab.com/aquachain/aquachain/rpc/rpcclient"
@@ -53,20 +57,22 @@ var flagIndex = map[string]int{"ipc": 1, "http": 2, "ws": 3, "inproc": 4}
 var transports = []string{"inproc", "ipc", "http", "ws"}
 
 type Scenario struct {
-	Name        string            `json:"name"`
-	Env         map[string]string `json:"env"` // only the variables that are set
-	NoDefaults  bool              `json:"no_defaults"`
-	HTTPModules []string          `json:"http_modules"`
-	WSModules   []string          `json:"ws_modules"`
-	WSExposeAll bool              `json:"ws_expose_all"`
-	Clique      bool              `json:"clique"`
-	ListOnly    bool              `json:"list_only"`      // compare the served registries only, make no calls
-	NoKeys      bool              `json:"no_keys"`        // node.Config.NoKeys (no keystore at all)
-	Runtime     bool              `json:"runtime"`        // HTTP and WS are not configured; they are started through admin_startRPC / admin_startWS over IPC with HTTPModules / WSModules as the apis argument
-	RuntimeNil  bool              `json:"runtime_nil"`    // with Runtime: pass apis = null (HTTP then uses Node.httpWhitelist = nil, WS uses Config.WSModules)
-	Only        *OnlyCall         `json:"only,omitempty"` // replay: a single call
-	Seed        uint64            `json:"seed"`           // for the request fuzzer in the child
-	NoFuzz      bool              `json:"no_fuzz"`        // skip the request fuzzer (quick tier: two fuzzing children are enough)
+	Name          string            `json:"name"`
+	Env           map[string]string `json:"env"` // only the variables that are set
+	NoDefaults    bool              `json:"no_defaults"`
+	HTTPModules   []string          `json:"http_modules"`
+	WSModules     []string          `json:"ws_modules"`
+	WSExposeAll   bool              `json:"ws_expose_all"`
+	Clique        bool              `json:"clique"`
+	ListOnly      bool              `json:"list_only"`            // compare the served registries only, make no calls
+	NoKeys        bool              `json:"no_keys"`              // node.Config.NoKeys (no keystore at all)
+	Runtime       bool              `json:"runtime"`              // HTTP and WS are not configured; they are started through admin_startRPC / admin_startWS over IPC with HTTPModules / WSModules as the apis argument
+	RuntimeNil    bool              `json:"runtime_nil"`          // with Runtime: pass apis = null (HTTP then uses Node.httpWhitelist = nil, WS uses Config.WSModules)
+	Only          *OnlyCall         `json:"only,omitempty"`       // replay: a single call
+	Seed          uint64            `json:"seed"`                 // for the request fuzzer in the child
+	ProtectedOnly bool              `json:"protected_only"`       // call only the methods with protected / signing-looking names (single opt-in scenarios)
+	SkipCalls     []string          `json:"skip_calls,omitempty"` // methods a previous attempt of this child crashed the node process in (found by the parent from the in-flight marker)
+	NoFuzz        bool              `json:"no_fuzz"`              // skip the request fuzzer (quick tier: two fuzzing children are enough)
 }
 
 type OnlyCall struct {
@@ -82,7 +88,8 @@ type Call struct {
 	D uint64            `json:"sign_counter_delta"`
 	R string            `json:"result"` // ok | notfound | invalid | err | timeout
 	E string            `json:"error,omitempty"`
-	Q string            `json:"request,omitempty"` // the method string as sent, when it differs from the resolved method
+	S string            `json:"signature_in_reply,omitempty"` // what the reply was recognised as (65-byte signature / transaction signed by a keystore account)
+	Q string            `json:"request,omitempty"`            // the method string as sent, when it differs from the resolved method
 }
 
 type TransportOut struct {
@@ -107,15 +114,17 @@ type MergeCase struct {
 }
 
 type ChildOut struct {
-	Flags      map[string]bool          `json:"flags"`
-	Unlocked   string                   `json:"unlocked"`
-	Locked     string                   `json:"locked"`
-	Transports map[string]*TransportOut `json:"transports"`
-	Fake       []FakeCaller             `json:"fake_callers"`
-	Merge      []MergeCase              `json:"merge_cases"`
-	Fuzz       []FuzzCase               `json:"fuzz_cases"`
-	Universe   int                      `json:"universe"`
-	Error      string                   `json:"error,omitempty"`
+	Flags             map[string]bool          `json:"flags"`
+	Unlocked          string                   `json:"unlocked"`
+	Locked            string                   `json:"locked"`
+	Transports        map[string]*TransportOut `json:"transports"`
+	Fake              []FakeCaller             `json:"fake_callers"`
+	Merge             []MergeCase              `json:"merge_cases"`
+	Fuzz              []FuzzCase               `json:"fuzz_cases"`
+	Universe          int                      `json:"universe"`
+	ProtectedNames    []string                 `json:"protected_names"` // ns_wire of the callbacks whose Go name rpc.isProtectedMethodName accepts
+	SkippedAfterCrash []string                 `json:"skipped_after_crash,omitempty"`
+	Error             string                   `json:"error,omitempty"`
 }
 
 // ------------------------------------------------------------------ child
@@ -336,6 +345,9 @@ func genArg(t reflect.Type, m rpc.VerifMethod, v variant) interface{} {
 			a["nonce"] = "0x0"
 		}
 		return a
+	case t.Name() == "Transaction" && strings.HasSuffix(t.PkgPath(), "core/types"):
+		// a complete transaction object with a well-formed (dummy) v/r/s: signed here with a throw-away key
+		return dummySignedTx(v.other)
 	case t.Name() == "CallArgs":
 		return map[string]interface{}{"from": v.addr, "to": v.other}
 	case t.Name() == "BlockNumber":
@@ -359,6 +371,61 @@ func genArg(t reflect.Type, m rpc.VerifMethod, v variant) interface{} {
 		return nil
 	}
 	return reflect.Zero(t).Interface()
+}
+
+var dummyKey, _ = crypto.HexToBtcec("48c18c18c18c18c18c18c18c18c18c18c18c18c18c18c18c18c18c18c18c18c4")
+
+func dummySignedTx(to common.Address) interface{} {
+	tx := types.NewTransaction(0, to, big.NewInt(1), 21000, big.NewInt(1000000000), nil)
+	signed, err := types.SignTx(tx, types.HomesteadSigner{}, dummyKey)
+	if err != nil {
+		return nil
+	}
+	return signed
+}
+
+// recogniseSignature inspects a successful reply: a 65-byte signature, or a transaction (bare, or under
+// "tx", or RLP under "raw") whose recovered sender is one of the two keystore accounts
+func recogniseSignature(res json.RawMessage, accountsOfKeystore []common.Address) string {
+	if len(res) == 0 {
+		return ""
+	}
+	var str string
+	if json.Unmarshal(res, &str) == nil {
+		if b, err := hex.DecodeString(strings.TrimPrefix(str, "0x")); err == nil && len(b) == 65 {
+			return "65-byte signature"
+		}
+		return ""
+	}
+	var candidates []json.RawMessage
+	var obj map[string]json.RawMessage
+	if json.Unmarshal(res, &obj) == nil {
+		candidates = append(candidates, res)
+		if t, ok := obj["tx"]; ok {
+			candidates = append(candidates, t)
+		}
+	}
+	for _, cnd := range candidates {
+		var tx types.Transaction
+		if json.Unmarshal(cnd, &tx) != nil {
+			continue
+		}
+		for _, signer := range []types.Signer{types.NewEIP155Signer(big.NewInt(c18node.ChainID)), types.NewEIP155Signer(big.NewInt(c18node.ChainID + 1)), types.HomesteadSigner{}} {
+			if from, err := types.Sender(signer, &tx); err == nil {
+				for _, a := range accountsOfKeystore {
+					if from == a {
+						return "transaction signed by keystore account " + a.Hex()
+					}
+				}
+			}
+		}
+	}
+	return ""
+}
+
+func looksLikeSigner(m rpc.VerifMethod) bool {
+	l := strings.ToLower(m.GoName)
+	return rpc.VerifIsProtectedMethodName(m.GoName) || strings.Contains(l, "sign") || strings.Contains(l, "sendtransaction") || strings.Contains(l, "resend")
 }
 
 var neverCall = map[string]string{
@@ -421,6 +488,18 @@ func childMain(specPath string) {
 		log.Root().SetHandler(log.DiscardHandler())
 	}
 	dir := filepath.Dir(specPath)
+	// in-flight marker: if a call crashes the node process the parent learns which one it was
+	inflightFile, _ := os.OpenFile(filepath.Join(dir, "inflight.txt"), os.O_CREATE|os.O_WRONLY|os.O_TRUNC, 0o644)
+	inflight := func(what string) {
+		if inflightFile != nil {
+			inflightFile.Truncate(0)
+			inflightFile.WriteAt([]byte(what), 0)
+		}
+	}
+	skipCall := map[string]bool{}
+	for _, n := range sc.SkipCalls {
+		skipCall[n] = true
+	}
 	env, err := c18node.Start(c18node.Options{Dir: filepath.Join(dir, "data"), NoDefaults: sc.NoDefaults, HTTPModules: sc.HTTPModules,
 		WSModules: sc.WSModules, WSExposeAll: sc.WSExposeAll, Transports: true, Clique: sc.Clique, NoKeys: sc.NoKeys, OnlyIPC: sc.Runtime})
 	if err != nil {
@@ -496,6 +575,11 @@ func childMain(specPath string) {
 		names = append(names, n)
 	}
 	sort.Strings(names)
+	for _, n := range names {
+		if rpc.VerifIsProtectedMethodName(universe[n].GoName) {
+			out.ProtectedNames = append(out.ProtectedNames, n)
+		}
+	}
 	// request-name aliases the JSON layer knows for SINGLE requests: eth_X -> aqua_X, X -> btc_X
 	aliases := map[string]rpc.VerifMethod{}
 	for n, m := range universe {
@@ -570,6 +654,7 @@ func childMain(specPath string) {
 			for i, p := range params {
 				args[i] = p
 			}
+			inflight("call " + name)
 			before := keystore.VerifSignCount()
 			t0 := time.Now()
 			ctx, cancel := context.WithTimeout(context.Background(), 8*time.Second)
@@ -591,7 +676,11 @@ func childMain(specPath string) {
 				fmt.Fprintln(os.Stderr, "SLOW", tr, name, label, d)
 			}
 			r, e := classify(err)
-			to.Calls = append(to.Calls, Call{M: name, V: label, P: params, D: after - before, R: r, E: e})
+			sig := ""
+			if err == nil {
+				sig = recogniseSignature(res, []common.Address{env.Unlocked, env.Locked})
+			}
+			to.Calls = append(to.Calls, Call{M: name, V: label, P: params, D: after - before, R: r, E: e, S: sig})
 			if env.Aqua.IsMining() {
 				env.Aqua.StopMining()
 				time.Sleep(20 * time.Millisecond)
@@ -631,6 +720,13 @@ func childMain(specPath string) {
 			m := universe[name]
 			if why, skip := neverCall[name]; skip {
 				to.Skipped = append(to.Skipped, name+": "+why)
+				continue
+			}
+			if skipCall[name] {
+				to.Skipped = append(to.Skipped, name+": a previous attempt crashed the node process while this call was in flight")
+				continue
+			}
+			if sc.ProtectedOnly && !looksLikeSigner(m) {
 				continue
 			}
 			startsMiner := name == "miner_start" || name == "aqua_getWork" || name == "testing_getBlockTemplate"
@@ -673,7 +769,7 @@ func childMain(specPath string) {
 				doCall(name, v.label, params, w)
 			}
 		}
-		if !sc.ListOnly && sc.Only == nil && !sc.Clique {
+		if !sc.ListOnly && !sc.ProtectedOnly && sc.Only == nil && !sc.Clique {
 			plain := variant{"unlocked/right-pass", env.Unlocked, env.Locked, c18node.PassUnlocked}
 			paramsOf := func(m rpc.VerifMethod) []json.RawMessage {
 				var params []json.RawMessage
@@ -700,7 +796,7 @@ func childMain(specPath string) {
 			}
 			for _, an := range aliasNames {
 				callable[an] = aliases[an]
-				if _, skip := neverCall["aqua_"+strings.TrimPrefix(an, "eth_")]; skip {
+				if _, skip := neverCall["aqua_"+strings.TrimPrefix(an, "eth_")]; skip || skipCall[an] || skipCall["aqua_"+strings.TrimPrefix(an, "eth_")] {
 					continue
 				}
 				doCall(an, "alias", paramsOf(aliases[an]), 0)
@@ -709,7 +805,7 @@ func childMain(specPath string) {
 			// (parseBatchRequest / Server.execBatch path)
 			var bnames []string
 			for _, name := range names {
-				if _, skip := neverCall[name]; !skip {
+				if _, skip := neverCall[name]; !skip && !skipCall[name] {
 					bnames = append(bnames, name)
 				}
 			}
@@ -725,6 +821,7 @@ func childMain(specPath string) {
 					}
 					elems[i] = rpcclient.BatchElem{Method: name, Args: args, Result: new(json.RawMessage)}
 				}
+				inflight("batch " + strings.Join(chunk, ","))
 				before := keystore.VerifSignCount()
 				ctx, cancel := context.WithTimeout(context.Background(), 20*time.Second)
 				err := cl.BatchCallContext(ctx, elems)
@@ -784,9 +881,11 @@ func childMain(specPath string) {
 			}
 		}
 	}
-	if !sc.ListOnly && sc.Only == nil && !sc.Clique && !sc.NoFuzz {
+	if !sc.ListOnly && !sc.ProtectedOnly && sc.Only == nil && !sc.Clique && !sc.NoFuzz {
+		inflight("fuzz")
 		out.Fuzz = runFuzz(sc, env, universe, subUniverse, names, subNames)
 	}
+	inflight("done")
 	emit()
 	done := make(chan struct{})
 	go func() { env.Stop(); close(done) }()
@@ -804,18 +903,36 @@ func childMain(specPath string) {
 func runChild(c *vh.Ctx, sc Scenario, idx int) (*ChildOut, error) {
 	var out *ChildOut
 	var err error
-	for attempt := 0; attempt < 4; attempt++ {
-		out, err = runChildOnce(c, sc, idx*10+attempt)
+	infra := 0
+	for attempt := 0; attempt < 12 && infra < 4; attempt++ {
+		out, err = runChildOnce(c, &sc, idx*10+attempt)
 		if err == nil {
+			out.SkippedAfterCrash = sc.SkipCalls
 			return out, nil
 		}
+		if ce, ok := err.(*crashError); ok {
+			// the node process died while a call was in flight: leave that call out and run the scenario again
+			c.Note("scenario %s: the node process crashed during %q (%s); re-running without it", sc.Name, ce.inflight, ce.firstLine)
+			c.Count("node process crashed during a call (call skipped, scenario re-run)")
+			continue
+		}
+		infra++
 		fmt.Fprintf(os.Stderr, "c18: scenario %s attempt %d failed: %v\n", sc.Name, attempt+1, err)
 		time.Sleep(time.Duration(200*(attempt+1)) * time.Millisecond)
 	}
 	return nil, err
 }
 
-func runChildOnce(c *vh.Ctx, sc Scenario, idx int) (*ChildOut, error) {
+type crashError struct {
+	inflight, firstLine string
+}
+
+func (e *crashError) Error() string {
+	return "node process crashed during " + e.inflight + ": " + e.firstLine
+}
+
+func runChildOnce(c *vh.Ctx, scp *Scenario, idx int) (*ChildOut, error) {
+	sc := *scp
 	dir, err := os.MkdirTemp("", fmt.Sprintf("c18-%d-", idx))
 	if err != nil {
 		return nil, err
@@ -866,6 +983,28 @@ func runChildOnce(c *vh.Ctx, sc Scenario, idx int) (*ChildOut, error) {
 		st := stderr.String()
 		if len(st) > 1500 {
 			st = st[len(st)-1500:]
+		}
+		// did it die in the middle of a call?
+		if mark, rerr := os.ReadFile(filepath.Join(dir, "inflight.txt")); rerr == nil {
+			w := strings.TrimSpace(string(mark))
+			first := ""
+			for _, l := range strings.Split(stderr.String(), "\n") {
+				if strings.HasPrefix(l, "panic:") || strings.HasPrefix(l, "fatal error:") {
+					first = l
+					break
+				}
+			}
+			switch {
+			case strings.HasPrefix(w, "call "):
+				scp.SkipCalls = append(scp.SkipCalls, strings.TrimPrefix(w, "call "))
+				return nil, &crashError{w, first}
+			case strings.HasPrefix(w, "batch "):
+				scp.SkipCalls = append(scp.SkipCalls, strings.Split(strings.TrimPrefix(w, "batch "), ",")...)
+				return nil, &crashError{w, first}
+			case w == "fuzz":
+				scp.NoFuzz = true
+				return nil, &crashError{w, first}
+			}
 		}
 		return nil, fmt.Errorf("child failed (%v / %v): %s", err, jerr, st)
 	}
@@ -1021,6 +1160,13 @@ func evaluate(c *vh.Ctx, m *vh.Model, sc Scenario, out *ChildOut) {
 			rans := m.Ask(rreq)
 			rf := strings.Fields(rans)
 			resolvedName, sb := call.M, "unresolved"
+			if call.V == "alias" { // name the method the way the JSON layer rewrites a single request
+				if strings.HasPrefix(call.M, "eth_") {
+					resolvedName = "aqua_" + strings.TrimPrefix(call.M, "eth_")
+				} else if !strings.Contains(call.M, "_") {
+					resolvedName = "btc_" + call.M
+				}
+			}
 			if len(rf) == 2 {
 				if ef := strings.Split(rf[1], "|"); len(ef) == 3 {
 					resolvedName, sb = ef[0], ef[2]
@@ -1038,8 +1184,8 @@ func evaluate(c *vh.Ctx, m *vh.Model, sc Scenario, out *ChildOut) {
 				}
 				c.Correspond(kind+":method-not-found~resolve", sc.Name+" "+tr+" "+call.M+" "+call.V+" ("+rreq+")", bit(call.R != "notfound"), bit(len(rf) > 0 && rf[0] != "notfound"))
 			}
-			if call.D > 0 {
-				// a keystore signing entry point was entered: the static bit of the resolved method must say so
+			if call.D > 0 || call.S != "" {
+				// a keystore signing entry point was entered (or the reply carries a signature): the static bit of the resolved method must say so
 				c.Correspond("keystore counter moved => m_signs", sc.Name+" "+tr+" "+call.M+" "+call.V, "1", sb)
 				if !optedIn {
 					call.Q = call.M
@@ -1061,7 +1207,21 @@ func evaluate(c *vh.Ctx, m *vh.Model, sc Scenario, out *ChildOut) {
 			if call.R == "ok" {
 				produced = "the call succeeded: a signature with the keystore key was produced"
 			}
-			c.Violate("rpc-unprotected-signer/"+call.M,
+			if call.S != "" {
+				produced += "; the reply carries a " + call.S
+			}
+			sig := "rpc-unprotected-signer/" + call.M
+			protectedName := false
+			for _, pn := range out.ProtectedNames {
+				if pn == call.M {
+					protectedName = true
+				}
+			}
+			if strings.Count(flags, "1") == 1 && protectedName {
+				// exactly one opt-in variable is set, and a transport it does not belong to serves a protected method that signs
+				sig = "rpc-optin-crosses-transport/" + envVars[strings.Index(flags, "1")] + "/" + tr
+			}
+			c.Violate(sig,
 				fmt.Sprintf("%s over %s entered a keystore signing entry point %d time(s) although %s is not set (%s; modules http=%s ws=%s; chain=%s); %s", call.M, tr, call.D, envVars[flagIndex[tr]], envDesc(sc), hm, wm, chainOf(sc), produced),
 				map[string]interface{}{"scenario": sc, "transport": tr, "method": map[bool]string{true: call.Q, false: call.M}[call.Q != ""], "variant": call.V, "params": call.P, "result": call.R, "error": call.E, "sign_counter_delta": call.D})
 		}
@@ -1224,8 +1384,10 @@ func scenarios(c *vh.Ctx) []Scenario {
 		// at start-up and for servers started at run time
 		for i := 0; i < 5; i++ {
 			e := map[string]string{envVars[i]: truthy[c.Rng.Intn(len(truthy))]}
-			l = append(l, Scenario{Name: "single-opt-in-" + envVars[i] + "/wide-modules/list-only", Env: e, NoDefaults: true, HTTPModules: wide, WSModules: wide, ListOnly: true})
-			l = append(l, Scenario{Name: "runtime-start/single-opt-in-" + envVars[i] + "/wide-modules/list-only", Env: rt(e), Runtime: true, NoDefaults: true, HTTPModules: wide, WSModules: wide, ListOnly: true})
+			// registry comparison + the signing-looking methods called on all four transports: signing must
+			// succeed only on the transport whose variable is set (direct oracle rpc-optin-crosses-transport)
+			l = append(l, Scenario{Name: "single-opt-in-" + envVars[i] + "/wide-modules/signers-only", Env: e, NoDefaults: true, HTTPModules: wide, WSModules: wide, ProtectedOnly: true})
+			l = append(l, Scenario{Name: "runtime-start/single-opt-in-" + envVars[i] + "/wide-modules/signers-only", Env: rt(e), Runtime: true, NoDefaults: true, HTTPModules: wide, WSModules: wide, ProtectedOnly: true})
 		}
 		l = append(l, Scenario{Name: "runtime-start/apis-null/list-only", Env: rt(nil), Runtime: true, RuntimeNil: true, ListOnly: true})
 		l = append(l, Scenario{Name: "default-env/wide-modules/list-only", Env: none, NoDefaults: true, HTTPModules: wide, WSModules: wide, ListOnly: true})
@@ -1254,6 +1416,12 @@ func scenarios(c *vh.Ctx) []Scenario {
 		return l
 	}
 	l = append(l, Scenario{Name: "default-env/wide-modules", Env: none, NoDefaults: true, HTTPModules: wide, WSModules: wide})
+	for i := 0; i < 5; i++ {
+		for _, tv := range []string{"1", "true", "banana"} {
+			e := map[string]string{envVars[i]: tv}
+			l = append(l, Scenario{Name: "single-opt-in-" + envVars[i] + "=" + tv + "/wide-modules/signers-only", Env: e, NoDefaults: true, HTTPModules: wide, WSModules: wide, ProtectedOnly: true})
+		}
+	}
 	for mask := 1; mask < 32; mask++ {
 		env := map[string]string{}
 		for i, v := range envVars {
